@@ -15,11 +15,16 @@
 (*     pairs : set of <<i, j>>, i < j, slots that may hold the SAME buffer   *)
 (*     cbs   : set of callback-return modes the operation admits, subset of  *)
 (*             {"fresh", "arg", "cached"} ({} = no callback)                 *)
+(*     dts   : set of floating types, besides "f8", in which the float64     *)
+(*             array arguments are ALSO handed over ("f4" single, "g"        *)
+(*             extended precision): conversions such as asarray(x, dtype=T)  *)
+(*             copy for one input type and alias for another                 *)
 (*                                                                          *)
-(* A PROGRAM is <<k, share, ro, cb>>: operation Api[k]; share = <<0,0>> or   *)
-(* a pair of slots bound to one buffer; ro = 0 (all writable), -1 (every     *)
-(* array slot write-protected) or the index of the one protected slot;       *)
-(* cb = callback mode or "none".                                             *)
+(* A PROGRAM is <<k, share, ro, cb, dt>>: operation Api[k]; share = <<0,0>>  *)
+(* or a pair of slots bound to one buffer; ro = bit mask of write-protected  *)
+(* slots; cb = callback mode or "none"; dt = floating type of the array      *)
+(* arguments ("f8", or a member of Api[k].dts - then only with nothing or    *)
+(* everything write-protected).                                              *)
 (*                                                                          *)
 (* State machine: the caller's heap maps a buffer to a version; Call leaves  *)
 (* every version alone (CallerFrame).  The variant Writes = "asShipped"      *)
@@ -44,10 +49,13 @@ MaskOf(ss_) == IF ss_ = {} THEN 0 ELSE LET x_ == CHOOSE y_ \in ss_ : TRUE IN Pow
 Ros(k_) == IF FullMasks THEN {MaskOf(ss_) : ss_ \in SUBSET ArraySlots(k_)}
            ELSE {0, MaskOf(ArraySlots(k_))} \cup {Pow2(i_ - 1) : i_ \in ArraySlots(k_)}
 Cbs(k_) == IF Api[k_].cbs = {} THEN {"none"} ELSE Api[k_].cbs
+Dts(k_) == {"f8"} \cup Api[k_].dts
+RosOf(k_, dt_) == IF dt_ = "f8" THEN Ros(k_) ELSE {0, MaskOf(ArraySlots(k_))}
 WellFormed(p_) ==
     /\ p_[1] \in 1..Len(Api)
     /\ p_[2] \in Shares(p_[1])
-    /\ p_[3] \in Ros(p_[1])
+    /\ p_[5] \in Dts(p_[1])
+    /\ p_[3] \in RosOf(p_[1], p_[5])
     /\ p_[4] \in Cbs(p_[1])
 
 \* buffers of a program: one per slot (slot j of a shared pair <<i,j>> uses buffer i), plus
@@ -57,16 +65,16 @@ Buffers(p_) == {BufOf(p_, s_) : s_ \in 1..NSlots(p_[1])} \cup (IF p_[4] = "none"
 
 VARIABLES pc, prog, heap, obs
 vars == <<pc, prog, heap, obs>>
-NoProg == <<0, <<0, 0>>, 0, "none">>
+NoProg == <<0, <<0, 0>>, 0, "none", "f8">>
 Init == pc = "idle" /\ prog = NoProg /\ heap = [b_ \in 0..8 |-> 0] /\ obs = "none"
 
 PickOp == /\ pc = "idle"
-          /\ \E k_ \in 1..Len(Api) : prog' = <<k_, <<0, 0>>, 0, "none">>
+          /\ \E k_ \in 1..Len(Api) : prog' = <<k_, <<0, 0>>, 0, "none", "f8">>
           /\ pc' = "op" /\ UNCHANGED <<heap, obs>>
 PickProgram ==
     /\ pc = "op"
-    /\ \E sh_ \in Shares(prog[1]), ro_ \in Ros(prog[1]), cb_ \in Cbs(prog[1]) :
-          prog' = <<prog[1], sh_, ro_, cb_>>
+    /\ \E sh_ \in Shares(prog[1]), dt_ \in Dts(prog[1]), cb_ \in Cbs(prog[1]) :
+          \E ro_ \in RosOf(prog[1], dt_) : prog' = <<prog[1], sh_, ro_, cb_, dt_>>
     /\ pc' = "bound" /\ UNCHANGED <<heap, obs>>
 
 OdeOps == {"solve_ode_ivp", "solve_ode_bvp"}
@@ -93,16 +101,20 @@ ProgramsWellFormed == pc \in {"bound", "done"} => WellFormed(prog)
 \* every shareable pair occurs shared, every callback mode occurs
 Complete ==
     \A k_ \in 1..Len(Api) :
-        /\ \A s_ \in ArraySlots(k_) : WellFormed(<<k_, <<0, 0>>, Pow2(s_ - 1), CHOOSE c_ \in Cbs(k_) : TRUE>>)
+        /\ \A s_ \in ArraySlots(k_) : WellFormed(<<k_, <<0, 0>>, Pow2(s_ - 1), CHOOSE c_ \in Cbs(k_) : TRUE, "f8">>)
+        /\ \A dt_ \in Api[k_].dts : dt_ \in {"f4", "g"} /\ \E s_ \in 1..NSlots(k_) : Api[k_].kinds[s_] = "A"
         /\ \A pr_ \in Api[k_].pairs : pr_[1] < pr_[2] /\ pr_[2] <= NSlots(k_)
                                       /\ Api[k_].kinds[pr_[1]] = Api[k_].kinds[pr_[2]]
-Emit == pc = "bound" => PrintT(<<"PROG", prog[1], Api[prog[1]].op, prog[2], prog[3], prog[4]>>)
+Emit == pc = "bound" => PrintT(<<"PROG", prog[1], Api[prog[1]].op, prog[2], prog[3], prog[4], prog[5]>>)
 
 \* ---- judging the recorded events (Obs from obs_c20.json, one record per executed program) ------
-\* Obs[i] = [k, share, ro, cb, changed (sequence of names of changed caller buffers), exc, same]
+\* Obs[i] = [k, share, ro, cb, dt, changed (sequence of names of changed caller buffers), exc, same,
+\*           basexc (exception of the plain call - nothing shared, nothing protected - with arrays of type dt)]
 Verdict(e_) ==
-    IF ~WellFormed(<<e_.k, <<e_.share[1], e_.share[2]>>, e_.ro, e_.cb>>) THEN "harness-ran-a-program-outside-the-specification"
-    ELSE IF Len(e_.changed) > 0 THEN "caller-buffer-modified"
+    IF ~WellFormed(<<e_.k, <<e_.share[1], e_.share[2]>>, e_.ro, e_.cb, e_.dt>>) THEN "harness-ran-a-program-outside-the-specification"
+    ELSE IF Len(e_.changed) > 0 THEN "caller-buffer-modified"       \* also when the call raised
+    \* an operation that does not take arrays of this floating type at all has nothing further to answer for
+    ELSE IF e_.dt # "f8" /\ e_.basexc # "" THEN "ok"
     ELSE IF e_.exc = "read-only" THEN "read-only-input-rejected"
     ELSE IF e_.exc # "" THEN "raised:" \o e_.exc
     ELSE IF ~e_.same THEN "result-depends-on-aliasing"
